@@ -42,7 +42,7 @@ CHECKS = {
             'Held after every call of every explored history (BFS closure to length 3/4 + random continuation to 8) on PIT, MPS per-layer/per-channel and SuperNet models.',
             'frozen components identified by an independent program-level analysis', '5/C11'),
     'C12': ('oracle battery on the real cost: finite/non-negative, bit-exact independence from weights and data, autograd vs finite differences, monotonicity under ordered mask vectors, fully-open == original',
-            'Held on every explored (model, spec) pair for PIT, SuperNet, MPS and ODiMO_MPS with its defaults.',
+            'Held on every explored (model, spec) pair for PIT, SuperNet, MPS and ODiMO_MPS with its defaults; one corner (zero gradient through the detached consumer path when a layer sees 0 input features) is a known finding.',
             'operational definition of "raises the metric": +1e-3 finite difference', '5/C12'),
     'C13': ('float64 evaluation of the stated inequalities on the real quantizers: exhaustive level-boundary sweep, seeded tensors, in-situ wrappers on the three forward methods inside MPS models',
             'Held on the complete boundary sweep for bits {2,3,4,8} and on all seeded / in-situ tensors.',
@@ -61,7 +61,7 @@ CHECKS = {
             'configuration re-applied through the public API; same snapshot call on both sides', '5/C17'),
     'C18': ('twin-model oracle over observer-call sequences (all sequences up to length 2/3 + sampled longer ones), exports pairwise identical, search continues bit-identically',
             'Held on every explored sequence over {export, export(add_bn=False), summary, cost, get_cost, spec switch, forward} for the three methods in train and eval mode.',
-            'Gumbel noise excluded; per-channel MPS export (documented crash) not driven', '5/C18'),
+            'Gumbel forwards seeded on both twins; as-is gradient comparison one-sided; per-channel MPS export (documented crash) not driven', '5/C18'),
     'C19': ('float64 reference R-duccio vs the real regularizers on stub and real models; effective strength recovered by differentiation; complete (epoch, n_epochs) grid',
             'Held on all 1325 (epoch, n_epochs<=50) pairs x cost placements x strength modes, BaseRegularizer, and real PIT models.',
             'positive final strengths read as positive and finite', '5/C19'),
